@@ -20,6 +20,43 @@ def run(ctx):
     led = ctx.ledger
     led.explanation = EXPLANATION
     led.assumptions = ["Python re: leftmost, greedy matching; findall returns whole matches when there is no group", "C04.escape: constructors raise only CVSSn errors", "C07.eq for =="]
+    # soundness and completeness are stated against "valid vector of that version": the two
+    # constructors must accept exactly the grammar (C04's acceptance rules, discharged here for the
+    # classes the parser calls), and totality needs that nothing but the caught classes escapes them
+    import ast
+
+    from .. import rules_accept as RAcc
+    from ..rules_parse import RelabelLedger, parse_summary
+
+    f = ctx.repo.function("parser", "parse_cvss_from_text")
+    caught = set()
+    for h in ast.walk(f.node):
+        if isinstance(h, ast.ExceptHandler) and h.type is not None:
+            caught |= set(x.id for x in ast.walk(h.type) if isinstance(x, ast.Name))
+
+    class _Escapes(RelabelLedger):
+        """drops escapes of exception classes the parser's own handler catches"""
+
+        def _tolerated(self_, what):
+            return any(("%s escapes" % c) in (what or "") for c in caught if c not in ("CVSSError",))
+
+        def violation(self_, rule, ck, where, what, **k):
+            if self_._tolerated(what):
+                return self_.ok(rule, ck, where, "caught by parse_cvss_from_text: " + what[:80])
+            return RelabelLedger.violation(self_, rule, ck, where, what, **k)
+
+        def check(self_, cond, rule, ck, where, what, **k):
+            if not cond and self_._tolerated(what):
+                cond = True
+            return RelabelLedger.check(self_, cond, rule, ck, where, what, **k)
+
+    for v in (2, 3):
+        # which CVSSError subclass is raised does not matter here (all are caught): the .kinds rules stay with C04
+        keep = ("C04.init", "C04.raw", "C04.phases", "C04.store", "C04.tables", "C04.prefix", "C04.hierarchy")
+        parse_summary(ctx, v, RelabelLedger(led, "C13.accept", keep=keep, strip="C04."))
+        RAcc.check_tables(ctx, RelabelLedger(led, "C13.accept.tables", keep=("C04.tables", "C04.escape"), strip="C04.tables"), v)
+        RAcc.check_mandatory(ctx, RelabelLedger(led, "C13.accept.mandatory", keep=("C04.mandatory",), strip="C04.mandatory"), v)
+        RAcc.check_escape_parse(ctx, _Escapes(led, "C13.total.ctor", strip="C04."), v)
     n = RT.check_c13(ctx, led)
     # completeness also rests on the de-duplication test: `cvss not in result` drops a vector that
     # compares equal to an earlier one, so == must hold only for the same version and the same
